@@ -44,56 +44,103 @@ theorem procTxs_flag (u : DB) (h : Nat) (txs : List Tx) (first : Bool) (st st' :
             simp only [allOkFrom, Bool.false_or]
             rw [ih false _ _ _ _ _ hy]
 
+/-- the tests of `commitTxs` after the loop over the transactions, as a function of the loop's result -/
+def commitFinish (h rwd : Nat) (tr : Bool) (txs : List Tx) (r : CState × Nat × Nat × Bool) : Except Err Changes :=
+  if !tr && !r.2.2.2 then .error .scripts
+  else if rwd + r.2.1 < r.2.2.1 then .error .outGtIn
+  else .ok { deled := r.1.deled, undo := r.1.undo, addList := addListOf h r.1.blUnsp }
+
+theorem commitTxs_eq (u : DB) (h rwd : Nat) (tr : Bool) (txs : List Tx) :
+    commitTxs u h rwd tr txs =
+      if txs.isEmpty then .error .noCoinbase
+      else match procTxs u h true {} txs with
+        | .error e => .error e
+        | .ok r => commitFinish h rwd tr txs r := by
+  unfold commitTxs commitFinish
+  simp only [bind, Except.bind, pure, Except.pure, throw, throwThe, MonadExceptOf.throw]
+  by_cases he : txs.isEmpty = true
+  · simp only [he, if_true]
+  · simp only [he, Bool.false_eq_true, if_false]
+    cases hp : procTxs u h true {} txs with
+    | error e => try rfl
+    | ok r =>
+      obtain ⟨st, sin, sout, ok⟩ := r
+      simp only
+
+/-- `commitTxs` when the list is not empty and the loop succeeded -/
+theorem commitTxs_of_loop (u : DB) (h rwd : Nat) (tr : Bool) (txs : List Tx) (r : CState × Nat × Nat × Bool)
+    (he : ¬ txs.isEmpty = true) (hp : procTxs u h true {} txs = .ok r) :
+    commitTxs u h rwd tr txs = commitFinish h rwd tr txs r := by
+  rw [commitTxs_eq, if_neg he, hp]
+
+/-- … and when it is empty or the loop failed, the trusted flag plays no role -/
+theorem commitTxs_early (u : DB) (h rwd : Nat) (tr tr' : Bool) (txs : List Tx)
+    (hp : txs.isEmpty = true ∨ ∃ e, procTxs u h true {} txs = .error e) :
+    commitTxs u h rwd tr txs = commitTxs u h rwd tr' txs ∧ ∃ e, commitTxs u h rwd tr txs = .error e := by
+  rw [commitTxs_eq, commitTxs_eq]
+  rcases hp with he | ⟨e, hp⟩
+  · simp only [he, if_true]; exact ⟨trivial, _, rfl⟩
+  · by_cases he : txs.isEmpty = true
+    · simp only [he, if_true]; exact ⟨trivial, _, rfl⟩
+    · simp only [he, Bool.false_eq_true, if_false, hp]; exact ⟨trivial, _, rfl⟩
+
+theorem commitTxs_cases (u : DB) (h : Nat) (txs : List Tx) :
+    (txs.isEmpty = true ∨ ∃ e, procTxs u h true {} txs = .error e) ∨
+    (¬ txs.isEmpty = true ∧ ∃ r, procTxs u h true {} txs = .ok r) := by
+  by_cases he : txs.isEmpty = true
+  · exact Or.inl (Or.inl he)
+  · cases hp : procTxs u h true {} txs with
+    | error e => exact Or.inl (Or.inr ⟨e, rfl⟩)
+    | ok r => exact Or.inr ⟨he, r, rfl⟩
+
 open GocoinV.ChainTree in
 /-- a block that `commitTxs` accepts with the scripts checked has `scriptsPass` -/
 theorem commitTxs_false_scripts (u : DB) (h rwd : Nat) (txs : List Tx) (ch : Changes)
     (hok : commitTxs u h rwd false txs = .ok ch) : scriptsPass txs = true := by
-  unfold commitTxs at hok
-  simp only [bind, Except.bind, pure, Except.pure] at hok
-  split at hok
-  · simp only [throw, throwThe, MonadExceptOf.throw] at hok; cases hok
-  · split at hok
-    · cases hok
-    · rename_i r hr
-      obtain ⟨st, sin, sout, ok⟩ := r
-      have hf := procTxs_flag u h txs true _ st sin sout ok hr
-      simp only [Bool.not_false, Bool.true_and] at hok
-      split at hok
-      · simp only [throw, throwThe, MonadExceptOf.throw] at hok; cases hok
-      · rename_i hnot
-        unfold scriptsPass
-        rw [← hf]
-        simpa using hnot
+  rcases commitTxs_cases u h txs with hp | ⟨he, r, hp⟩
+  · obtain ⟨_, e, h2⟩ := commitTxs_early u h rwd false false txs hp
+    rw [h2] at hok; cases hok
+  · rw [commitTxs_of_loop u h rwd false txs r he hp] at hok
+    obtain ⟨st, sin, sout, ok⟩ := r
+    have hf := procTxs_flag u h txs true _ st sin sout ok hp
+    unfold commitFinish at hok
+    cases ok with
+    | true => unfold scriptsPass; rw [← hf]
+    | false => simp at hok
 
 /-- a block refused with the scripts skipped is refused with the scripts checked as well (possibly for another reason) -/
 theorem commitTxs_error_false (u : DB) (h rwd : Nat) (tr : Bool) (txs : List Tx) (e : Err)
     (herr : commitTxs u h rwd tr txs = .error e) : ∃ e', commitTxs u h rwd false txs = .error e' := by
-  cases tr with
-  | false => exact ⟨e, herr⟩
-  | true =>
-    cases hf : commitTxs u h rwd false txs with
-    | error e' => exact ⟨e', rfl⟩
-    | ok ch =>
-      exfalso
-      unfold commitTxs at herr hf
-      simp only [bind, Except.bind, pure, Except.pure] at herr hf
-      split at hf
-      · simp only [throw, throwThe, MonadExceptOf.throw] at hf; cases hf
-      · rename_i hne
-        simp only [hne, Bool.false_eq_true, if_false] at herr
-        split at hf
-        · cases hf
-        · rename_i r hr
-          simp only [hr] at herr
-          obtain ⟨st, sin, sout, ok⟩ := r
-          simp only [Bool.not_false, Bool.true_and, Bool.not_true, Bool.false_and, Bool.false_eq_true, if_false] at hf herr
-          split at hf
-          · simp only [throw, throwThe, MonadExceptOf.throw] at hf; cases hf
-          · split at hf
-            · simp only [throw, throwThe, MonadExceptOf.throw] at hf; cases hf
-            · rename_i hlt
-              simp only [hlt, if_false] at herr
-              cases herr
+  rcases commitTxs_cases u h txs with hp | ⟨he, r, hp⟩
+  · exact (commitTxs_early u h rwd false tr txs hp).2
+  · rw [commitTxs_of_loop u h rwd tr txs r he hp] at herr
+    rw [commitTxs_of_loop u h rwd false txs r he hp]
+    unfold commitFinish at herr ⊢
+    by_cases h1 : (!false && !r.2.2.2) = true
+    · exact ⟨_, by rw [if_pos h1]⟩
+    · rw [if_neg h1]
+      have h1' : ¬ (!tr && !r.2.2.2) = true := by
+        intro hc; apply h1; cases tr <;> simp_all
+      rw [if_neg h1'] at herr
+      exact ⟨e, herr⟩
+
+open GocoinV.ChainTree in
+/-- the replay with scripts skipped and `scriptsPass` together are the replay with scripts checked -/
+theorem commitTxs_checked_iff' (u : DB) (h rwd : Nat) (txs : List Tx) (ch : Changes) :
+    commitTxs u h rwd false txs = .ok ch ↔ (commitTxs u h rwd true txs = .ok ch ∧ scriptsPass txs = true) := by
+  rcases commitTxs_cases u h txs with hp | ⟨he, r, hp⟩
+  · obtain ⟨_, e, h2⟩ := commitTxs_early u h rwd false false txs hp
+    obtain ⟨_, e', h3⟩ := commitTxs_early u h rwd true true txs hp
+    rw [h2, h3]
+    constructor
+    · intro hc; cases hc
+    · rintro ⟨hc, _⟩; cases hc
+  · rw [commitTxs_of_loop u h rwd false txs r he hp, commitTxs_of_loop u h rwd true txs r he hp]
+    obtain ⟨st, sin, sout, ok⟩ := r
+    have hf := procTxs_flag u h txs true _ st sin sout ok hp
+    unfold commitFinish scriptsPass
+    rw [← hf]
+    cases ok <;> simp
 
 end GocoinV.UtxoOps
 
